@@ -85,20 +85,26 @@ def cq_task(t):
                                                  C.cq_bool(t.get("allrep", True)), C.cq_z(t.get("mvnow", 0)), cq_rs(t.get("all")))
 
 
+def cq_fix(c):
+    f = c.get("fix") or {}
+    return "(mkfx %s %s %s %s)" % tuple(C.cq_bool(f.get(k, False)) for k in ("weights", "uab", "batchrep", "endprep"))
+
+
 def case_to_coq(c):
     if c["fam"] == "cfg":
         obs = C.cq_list(["(%s, %d, %s)" % (cq_log(o["log"]), ERR.get(o["err"], 2), C.cq_bool(o["enabled"])) for o in c["obs"]])
-        return "cfg_case %d %s %s %s %s %s" % (c["id"], C.cq_bool(c["plus"]), C.cq_list(["(%s)" % cq_op(o) for o in c["ops"]]),
+        return "cfg_case %d %s %s %s %s %s %s" % (c["id"], C.cq_bool(c["plus"]), cq_fix(c), C.cq_list(["(%s)" % cq_op(o) for o in c["ops"]]),
                                             cq_nats(c["rfail"]), cq_nats(c["afail"]), obs)
     if c["fam"] == "ctl":
         obs = C.cq_list(["(%s, %s, %s, %s, %s)" % (cq_log(o["log"]), C.cq_bool(o["enabled"]), C.cq_bool(o["ready"]),
                                                    C.cq_bool(o["batch"]), C.cq_bool(o["reported"])) for o in c["obs"]])
-        return "ctl_case %d %s %s %s %s %s" % (c["id"], C.cq_bool(c["plus"]), C.cq_list([cq_task(t) for t in c["tasks"]]),
+        return "ctl_case %d %s %s %s %s %s %s" % (c["id"], C.cq_bool(c["plus"]), cq_fix(c), C.cq_list([cq_task(t) for t in c["tasks"]]),
                                             cq_nats(c["rfail"]), cq_nats(c["afail"]), obs)
     raise ValueError(c["fam"])
 
 
 PRELUDE = """From NIC Require Import Base.SMap Reload.Model Reload.Cases.
+Definition mkfx w u b d := {| fx_weights := w; fx_uab := u; fx_batchrep := b; fx_endprep := d |}.
 Definition mkres k n v a w := {| r_kind := k; r_name := n; r_ver := v; r_apis := a; r_weights := w |}.
 Definition mktask k q w f rp ar mv al := {| t_kind := k; t_qlen := q; t_work := w; t_found := f; t_reports := rp; t_all_reports := ar; t_mainver := mv; t_all := al |}.
 """
@@ -220,7 +226,12 @@ def judge(run, cases, res):
                 if ended and v in (2, 3, 5):
                     site = "batch-end"
                 elif ended and v == 4:
-                    site = "batch-end-updateall"
+                    # the batch is syncs j..i; a ConfigMap task inside it makes updateAllConfigs the intended ending
+                    # (then the reload without change is the by-design F16a class), otherwise the stale flag did it
+                    j = i
+                    while j > 0 and c["obs"][j - 1]["batch"]:
+                        j -= 1
+                    site = "batch-end" if any(x["kind"] == "configmap" for x in c["tasks"][j:i + 1]) else "batch-end-updateall"
                 elif v == 6:
                     site = "task-endpointslice"
                 else:
